@@ -3,7 +3,7 @@
 //! Bounded-exhaustive: every DAG on n commits (<= 3 or 4 parents, both parent orders when it
 //! has a merge) built in a real repository (simple backend) with p unrelated commits before it
 //! in the index (p = 0 and p = 59..63 modulo 64: the positions bit sets of the walk cross a
-//! 64-bit word; 64 graphs share a repository, each is unrelated to everything before it), x
+//! 64-bit word; 16 or 64 graphs share a repository, each is unrelated to everything before it), x
 //! every non-empty subset S of {root, 1..n} as the shown set x skip_transitive_edges in
 //! {false, true}. The
 //! graph stream of `DefaultReadonlyIndexRevset::iter_graph_impl` (what `Revset::stream_graph`
@@ -586,15 +586,17 @@ fn case_json(spec: &GraphSpec, s: u32, skip: bool) -> Value {
 }
 
 /// One repository with `first_padding` unrelated commits and then the given graphs.
-fn run_repo(ctx: &Ctx, st: &Stats, samples: &Samples, first_padding: usize, align: bool, graphs: &[Vec<Vec<usize>>]) {
+fn run_repo(ctx: &Ctx, st: &Stats, samples: &Samples, first_padding: usize, align: bool, helpers_keep: bool, graphs: &[Vec<Vec<usize>>]) {
     let (built, members) = build_many(first_padding, align, graphs);
     st.repos.inc();
     for (spec, g, ids) in &members {
-        run_graph(ctx, st, samples, &built, spec, g, ids);
+        run_graph(ctx, st, samples, &built, spec, g, ids, helpers_keep);
     }
 }
 
-fn run_graph(ctx: &Ctx, st: &Stats, samples: &Samples, built: &Built, spec: &GraphSpec, g: &G, ids: &Ids) {
+/// `helpers_keep`: also run reverse_graph / TopoGroupedGraph over the keep-mode stream (they
+/// always run over the skip-mode stream, the one `jj log` uses).
+fn run_graph(ctx: &Ctx, st: &Stats, samples: &Samples, built: &Built, spec: &GraphSpec, g: &G, ids: &Ids, helpers_keep: bool) {
     st.graphs.inc();
     if (spec.padding + 1) / 64 != (spec.padding + g.n) / 64 {
         st.graphs_straddling_a_word.inc();
@@ -608,8 +610,11 @@ fn run_graph(ctx: &Ctx, st: &Stats, samples: &Samples, built: &Built, spec: &Gra
         }
         for skip in [false, true] {
             st.walks.inc();
-            st.helper_walks.inc();
-            match check_walk(built.repo.as_ref(), g, ids, s, skip, true) {
+            let helpers = skip || helpers_keep;
+            if helpers {
+                st.helper_walks.inc();
+            }
+            match check_walk(built.repo.as_ref(), g, ids, s, skip, helpers) {
                 Ok(info) => {
                     st.edges.add(info.edges as u64);
                     st.indirect.add(info.indirect as u64);
@@ -676,7 +681,7 @@ fn main() {
         }
         ctx.finish(Coverage { evaluations: 1, ..Default::default() });
     }
-    // Plans. Repositories hold 64 graph variants written one after the other (each graph is
+    // Plans. Repositories hold 16 (aligned) or 64 (packed) graph variants written one after the other (each graph is
     // unrelated to everything before it). `Aligned(ps)`: for every p in ps, filler commits make
     // the number of commits preceding every graph congruent to p modulo 64 (p = 0, 64, 128, ...
     // for p = 0), so every graph is walked at exactly that alignment to the 64-bit words of
@@ -686,13 +691,13 @@ fn main() {
         Aligned(Vec<usize>),
         Packed(Vec<usize>),
     }
-    // (commits, max parents, both parent orders of merges?, layout)
-    let plans: Vec<(usize, usize, bool, Layout)> = ctx.pick(
-        vec![(5, 3, true, Layout::Aligned(vec![0, 61])), (6, 2, false, Layout::Packed(vec![58]))],
+    // (commits, max parents, both parent orders of merges?, helpers also over the keep-mode stream?, layout)
+    let plans: Vec<(usize, usize, bool, bool, Layout)> = ctx.pick(
+        vec![(5, 3, true, true, Layout::Aligned(vec![0, 61])), (6, 2, false, false, Layout::Packed(vec![58]))],
         vec![
-            (5, 4, true, Layout::Aligned(vec![0, 59, 60, 61, 62, 63])),
-            (6, 3, true, Layout::Aligned(vec![0, 62])),
-            (6, 3, true, Layout::Packed(vec![58, 60])),
+            (5, 4, true, true, Layout::Aligned(vec![0, 59, 60, 61, 62, 63])),
+            (6, 3, true, true, Layout::Aligned(vec![0, 62])),
+            (6, 3, true, true, Layout::Packed(vec![58, 60])),
         ],
     );
     let st = Stats {
@@ -715,20 +720,22 @@ fn main() {
     };
     let samples = Samples::new(5);
     let mut plan_desc = vec![];
-    for (n, max_parents, both_orders, layout) in &plans {
+    for (n, max_parents, both_orders, helpers_keep, layout) in &plans {
         let (w0, r0, g0, x0) = (st.walks.get(), st.repos.get(), st.graphs.get(), st.graphs_straddling_a_word.get());
         let t0 = ctx.elapsed_s();
         let vs = variants(*n, *max_parents, *both_orders);
         let (name, paddings, align) = match layout {
-            Layout::Aligned(paddings) => ("64 graph variants per repository, each preceded by filler commits up to the padding modulo 64", paddings, true),
+            Layout::Aligned(paddings) => ("16 graph variants per repository, each preceded by filler commits up to the padding modulo 64", paddings, true),
             Layout::Packed(paddings) => ("64 graph variants per repository, one directly after the other behind the padding", paddings, false),
         };
-        let jobs: Vec<(usize, &[Vec<Vec<usize>>])> = paddings.iter().flat_map(|&p| vs.chunks(64).map(move |c| (p, c))).collect();
-        jobs.par_iter().for_each(|(p, c)| run_repo(&ctx, &st, &samples, *p, align, c));
+        let per_repo = if align { 16 } else { 64 };
+        let jobs: Vec<(usize, &[Vec<Vec<usize>>])> = paddings.iter().flat_map(|&p| vs.chunks(per_repo).map(move |c| (p, c))).collect();
+        jobs.par_iter().for_each(|(p, c)| run_repo(&ctx, &st, &samples, *p, align, *helpers_keep, c));
         plan_desc.push(json!({
             "commits": n,
             "max_parents": max_parents,
             "both_parent_orders_of_merges": both_orders,
+            "reverse_and_topo_helpers_also_over_keep_mode_streams": helpers_keep,
             "graph_variants": vs.len(),
             "layout": name,
             "paddings": paddings,
@@ -776,7 +783,8 @@ fn main() {
                merge where the plan says so], padding [that many unrelated commits precede it in the index: the listed paddings, or its \
                offset in a packed repository], shown set [every non-empty subset of \
                {root, 1..n}], skip_transitive_edges [false, true]); each case is generated once and is one graph walk of \
-               the real RevsetGraphWalk plus reverse_graph and TopoGroupedGraph over its output; non-trivial = the walk \
+               the real RevsetGraphWalk plus (for every skip-mode walk, and for keep-mode walks where the plan says so) \
+               reverse_graph and TopoGroupedGraph over its output; non-trivial = the walk \
                produced at least one indirect edge (some shown commit has a hidden parent that leads back into the set)"
             .into(),
         samples: samples.take(),
